@@ -55,6 +55,9 @@ type Facts struct {
 	EventSites     []EventSite
 	TxnWiring      []Wiring
 	FetcherSites   []Wiring
+	// what a nil operand of an ordering comparison means: to the filter evaluation (internal/connor) and to the value
+	// matchers of the index fetcher
+	NilSemantics []Wiring
 }
 
 var fset = token.NewFileSet()
@@ -343,6 +346,127 @@ func main() {
 		}
 	}
 
+	// ---- NilSemantics
+	// (a) internal/connor/<op>.go, func <op>: `if condition == nil { return <expr>, nil }`
+	for _, op := range []string{"gt", "ge", "lt", "le"} {
+		rel := filepath.Join("internal/connor", op+".go")
+		f, err := parser.ParseFile(fset, filepath.Join(repo, rel), nil, parser.SkipObjectResolution)
+		if err != nil {
+			continue
+		}
+		for _, dd := range f.Decls {
+			fd, ok := dd.(*ast.FuncDecl)
+			if !ok || fd.Body == nil || fd.Name.Name != op {
+				continue
+			}
+			for _, st := range fd.Body.List {
+				is, ok := st.(*ast.IfStmt)
+				if !ok || src(is.Cond) != "condition == nil" {
+					continue
+				}
+				for _, bs := range is.Body.List {
+					if rs, ok := bs.(*ast.ReturnStmt); ok && len(rs.Results) == 2 {
+						facts.NilSemantics = append(facts.NilSemantics, Wiring{rel, op, src(rs.Results[0]), fset.Position(rs.Pos()).Line})
+					}
+				}
+			}
+		}
+	}
+	// (b) createValueMatcher: inside `if condition.val.IsNil() { .. }` the switch on condition.op and the final
+	//     nilMatcher whose matchNil is a disjunction of `condition.op == <op>`
+	{
+		rel := "internal/db/fetcher/indexer_matchers.go"
+		if f, err := parser.ParseFile(fset, filepath.Join(repo, rel), nil, parser.SkipObjectResolution); err == nil {
+			for _, dd := range f.Decls {
+				fd, ok := dd.(*ast.FuncDecl)
+				if !ok || fd.Body == nil || fd.Name.Name != "createValueMatcher" {
+					continue
+				}
+				for _, st := range fd.Body.List {
+					is, ok := st.(*ast.IfStmt)
+					if !ok || src(is.Cond) != "condition.val.IsNil()" {
+						continue
+					}
+					var matcherOf func(e ast.Expr) string
+					matcherOf = func(e ast.Expr) string {
+						if u, ok := e.(*ast.UnaryExpr); ok {
+							e = u.X
+						}
+						if cl, ok := e.(*ast.CompositeLit); ok {
+							return src(cl.Type)
+						}
+						return src(e)
+					}
+					for _, bs := range is.Body.List {
+						switch t := bs.(type) {
+						case *ast.SwitchStmt:
+							if src(t.Tag) != "condition.op" {
+								facts.NilSemantics = append(facts.NilSemantics, Wiring{rel, "nil:unrecognised", src(t.Tag), 0})
+								continue
+							}
+							for _, cc := range t.Body.List {
+								c := cc.(*ast.CaseClause)
+								kind := "unrecognised"
+								for _, cs := range c.Body {
+									if rs, ok := cs.(*ast.ReturnStmt); ok && len(rs.Results) == 2 {
+										kind = matcherOf(rs.Results[0])
+									}
+								}
+								for _, e := range c.List {
+									facts.NilSemantics = append(facts.NilSemantics, Wiring{rel, "nil:" + src(e), kind, fset.Position(c.Pos()).Line})
+								}
+							}
+						case *ast.ReturnStmt:
+							if len(t.Results) != 2 {
+								continue
+							}
+							e := t.Results[0]
+							if u, ok := e.(*ast.UnaryExpr); ok {
+								e = u.X
+							}
+							cl, ok := e.(*ast.CompositeLit)
+							if !ok || src(cl.Type) != "nilMatcher" || len(cl.Elts) != 1 {
+								facts.NilSemantics = append(facts.NilSemantics, Wiring{rel, "nil:unrecognised", src(t.Results[0]), 0})
+								continue
+							}
+							kv, ok := cl.Elts[0].(*ast.KeyValueExpr)
+							if !ok || src(kv.Key) != "matchNil" {
+								facts.NilSemantics = append(facts.NilSemantics, Wiring{rel, "nil:unrecognised", src(cl), 0})
+								continue
+							}
+							// matchNil: condition.op == a || condition.op == b ...
+							var ops []string
+							okAll := true
+							var walk func(x ast.Expr)
+							walk = func(x ast.Expr) {
+								if b, ok := x.(*ast.BinaryExpr); ok && b.Op.String() == "||" {
+									walk(b.X)
+									walk(b.Y)
+									return
+								}
+								if b, ok := x.(*ast.BinaryExpr); ok && b.Op.String() == "==" && src(b.X) == "condition.op" {
+									ops = append(ops, src(b.Y))
+									return
+								}
+								okAll = false
+							}
+							walk(kv.Value)
+							if !okAll {
+								facts.NilSemantics = append(facts.NilSemantics, Wiring{rel, "nil:unrecognised", src(kv.Value), 0})
+								continue
+							}
+							for _, o := range ops {
+								facts.NilSemantics = append(facts.NilSemantics, Wiring{rel, "nilMatcher:true", o, fset.Position(t.Pos()).Line})
+							}
+						default:
+							facts.NilSemantics = append(facts.NilSemantics, Wiring{rel, "nil:unrecognised", src(bs), 0})
+						}
+					}
+				}
+			}
+		}
+	}
+
 	_ = os.MkdirAll(out, 0o755)
 	jb, _ := json.MarshalIndent(facts, "", " ")
 	_ = os.WriteFile(filepath.Join(out, "facts.json"), jb, 0o644)
@@ -394,6 +518,14 @@ func main() {
 	for i, s := range facts.FetcherSites {
 		c := ","
 		if i == len(facts.FetcherSites)-1 {
+			c = ""
+		}
+		sb.WriteString(fmt.Sprintf("  ⟨%s, %s, %s⟩%s\n", q(s.File), q(s.Func), q(s.Arg), c))
+	}
+	sb.WriteString("]\n\ndef nilSemantics : List Wiring := [\n")
+	for i, s := range facts.NilSemantics {
+		c := ","
+		if i == len(facts.NilSemantics)-1 {
 			c = ""
 		}
 		sb.WriteString(fmt.Sprintf("  ⟨%s, %s, %s⟩%s\n", q(s.File), q(s.Func), q(s.Arg), c))
